@@ -434,22 +434,36 @@ theorem run_append (o : Obj) (pre post : List Call) : run o (pre ++ post) = run 
   | nil => rfl
   | cons c cs ih => simp [run, state, ih]
 
+theorem toExprV_wf (cs : Comps) (fixed : List Ty) (elemT : Ty) (row : RRow) (h : toExprV cs fixed elemT = .ok row) :
+    rowWf row = true := by
+  unfold toExprV at h
+  split at h
+  · contradiction
+  · exact toExprFrom_wf cs _ 0 row h
+
 theorem resolveTuplesVFrom_wf : ∀ (items : Items) (fixed : List Ty) (elemT : Ty) (i : Nat) (rows : RRows),
     resolveTuplesVFrom items fixed elemT i = .ok rows → rowsWf rows = true
   | .nil, _, _, _, rows, h => by simp [resolveTuplesVFrom] at h; subst h; rfl
-  | .one _ _, _, _, _, rows, h => by
+  | .one c rest, fixed, elemT, i, rows, h => by
     simp only [resolveTuplesVFrom] at h
-    split at h <;> contradiction
-  | .tuple cs rest, fixed, elemT, i, rows, h => by
-    simp only [resolveTuplesVFrom] at h
+    split at h
+    · contradiction
     obtain ⟨row, hrow, h2⟩ := bind_ok _ _ _ h
     obtain ⟨rs, hrs, h3⟩ := bind_ok _ _ _ h2
     injection h3 with h3; subst h3
     have hw : rowWf row = true := by
       split at hrow
-      · contradiction
-      · exact toExprFrom_wf cs _ 0 row hrow
+      · split at hrow
+        · exact toExprV_wf _ _ _ _ hrow
+        · contradiction
+      · exact toExprV_wf _ _ _ _ hrow
     simp [rowsWf, hw, resolveTuplesVFrom_wf rest fixed elemT (i + 1) rs hrs]
+  | .tuple cs rest, fixed, elemT, i, rows, h => by
+    simp only [resolveTuplesVFrom] at h
+    obtain ⟨row, hrow, h2⟩ := bind_ok _ _ _ h
+    obtain ⟨rs, hrs, h3⟩ := bind_ok _ _ _ h2
+    injection h3 with h3; subst h3
+    simp [rowsWf, toExprV_wf _ _ _ _ hrow, resolveTuplesVFrom_wf rest fixed elemT (i + 1) rs hrs]
 
 theorem resolveTuplesV_wf (items : Items) (fixed : List Ty) (elemT : Ty) (rows : RRows)
     (h : resolveTuplesV items fixed elemT = .ok rows) : rowsWf rows = true :=
